@@ -11,6 +11,7 @@ package main
 // so a different outcome on the current tree for that input is a demonstrated violation.
 
 import (
+	"regexp"
 	"encoding/json"
 	"fmt"
 	"go/types"
@@ -484,6 +485,9 @@ func referenceCommit(verifDir string) string {
 }
 
 func (r *Report) tryReplay(dir string, o *Obligation, info map[string]interface{}) (string, bool) {
+	if o.Bounded {
+		return r.tryReplayBounded(dir, o, info)
+	}
 	if o.Model == nil || len(o.Model) == 0 || os.Getenv("GOVC_NO_REPLAY") != "" {
 		return "", false
 	}
@@ -545,6 +549,157 @@ func (r *Report) tryReplay(dir string, o *Obligation, info map[string]interface{
 		os.WriteFile(base+"_test.go.txt", []byte(src), 0644)
 		info["model"] = model
 		info["replay"] = "REPRODUCED: on the solver's counterexample the current tree behaves differently from the reference tree (on which this obligation is proved for all inputs)"
+		info["replay_test"] = base + "_test.go.txt"
+		b, _ := json.MarshalIndent(info, "", " ")
+		os.WriteFile(base+".json", b, 0644)
+		return base + ".json", true
+	}
+	return "", false
+}
+
+// ---------------------------------------------------------------------------
+// replay of bounded symbolic cases: the harness itself is compiled and run natively on the solver's
+// values for the symbolic inputs; its checks then compare floats with a relative tolerance.
+
+var stubRe = regexp.MustCompile(`(?m)^func govc(Sym|Assume|CheckEq|Check|Note)\(.*\n`)
+
+func (r *Report) tryReplayBounded(dir string, o *Obligation, info map[string]interface{}) (string, bool) {
+	if os.Getenv("GOVC_NO_REPLAY") != "" || o.Ex == nil || o.Ex.fn == nil || o.Ex.fn.Pkg == nil {
+		return "", false
+	}
+	fn := o.Ex.fn
+	pkgRel := strings.TrimPrefix(strings.TrimPrefix(fn.Pkg.Pkg.Path(), r.V.rootPath), "/")
+	hdir := filepath.Join(r.VerifDir, "bounded", "sym", pkgRel)
+	ents, err := os.ReadDir(hdir)
+	if err != nil {
+		return "", false
+	}
+	// candidate inputs: the solver's model first, then a few fixed generic points (a failing rational
+	// identity fails almost everywhere on its path)
+	var cands []map[string]float64
+	m0 := map[string]float64{}
+	for k, v := range o.Model {
+		if strings.HasPrefix(k, "sym~c") || strings.HasPrefix(k, "sym:") {
+			if f, ok := parseSMTReal(v); ok {
+				m0[strings.TrimPrefix(strings.TrimPrefix(k, "sym~c"), "sym:")] = f
+			}
+		}
+	}
+	if len(m0) > 0 {
+		cands = append(cands, m0)
+	}
+	cands = append(cands, nil, nil, nil) // nil: pseudo-random generic point, seeded by its index
+	tmp, err := os.MkdirTemp("", "govc-breplay-")
+	if err != nil {
+		return "", false
+	}
+	defer os.RemoveAll(tmp)
+	for ci, cand := range cands {
+		var vals strings.Builder
+		for k, v := range cand {
+			vals.WriteString(fmt.Sprintf("\t%q: %v,\n", k, v))
+		}
+		impl := fmt.Sprintf(`
+var govcVals = map[string]float64{
+%s}
+var govcSeed = uint64(%d)
+func govcSym(name string) float64 {
+	if v, ok := govcVals[name]; ok {
+		return v
+	}
+	if len(govcVals) > 0 {
+		return 0
+	}
+	// generic point: small non-integer rationals, deterministic per name
+	h := govcSeed*1000003 + 14695981039346656037
+	for _, c := range []byte(name) {
+		h = (h ^ uint64(c)) * 1099511628211
+	}
+	return float64(int64(h%%2001)-1000)/137.0 + 0.3
+}
+func govcAssume(c bool) {
+	if !c {
+		panic("govc: assumption false")
+	}
+}
+func govcCheckEq(name string, a, b float64) {
+	d := a - b
+	if govcmath.IsNaN(d) || govcmath.Abs(d) > 1e-6*(1+govcmath.Abs(a)+govcmath.Abs(b)) {
+		fmt.Printf("GOVC FAIL %%s: %%v != %%v\n", name, a, b)
+	}
+}
+func govcCheck(name string, c bool) {
+	if !c {
+		fmt.Printf("GOVC FAIL %%s\n", name)
+	}
+}
+func govcNote(s string) {}
+func TestGovcReplay(t *govctesting.T) {
+	fmt.Println("GOVC run %s")
+	%s()
+}
+`, vals.String(), ci, strings.TrimPrefix(o.Func, "bounded."), strings.TrimPrefix(o.Func, "bounded."))
+		ov := map[string]string{}
+		var mainSrc string
+		for _, e := range ents {
+			if !strings.HasSuffix(e.Name(), ".go") {
+				continue
+			}
+			data, err := os.ReadFile(filepath.Join(hdir, e.Name()))
+			if err != nil {
+				continue
+			}
+			src := string(data)
+			if stubRe.MatchString(src) {
+				src = stubRe.ReplaceAllString(src, "")
+				// imports of the concrete intrinsics go right after the package clause
+				k := strings.Index(src, "\n")
+				if pk := strings.Index(src, "package "); pk >= 0 {
+					k = pk + strings.Index(src[pk:], "\n")
+				}
+				src = src[:k+1] + "import govcmath \"math\"\nimport govctesting \"testing\"\n" + src[k+1:] + impl
+				mainSrc = src
+			}
+			tf := filepath.Join(tmp, fmt.Sprintf("c%d_%s", ci, strings.TrimSuffix(e.Name(), ".go")+"_test.go"))
+			os.WriteFile(tf, []byte(src), 0644)
+			ov[filepath.Join(repoDir, pkgRel, "zz_govc_"+strings.TrimSuffix(e.Name(), ".go")+"_test.go")] = tf
+		}
+		ob, _ := json.Marshal(map[string]map[string]string{"Replace": ov})
+		ovf := filepath.Join(tmp, fmt.Sprintf("ov%d.json", ci))
+		os.WriteFile(ovf, ob, 0644)
+		cmd := exec.Command("go", "test", "-overlay", ovf, "-vet=off", "-v", "-count=1", "-timeout", "60s", "-run", "^TestGovcReplay$", ".")
+		cmd.Dir = filepath.Join(repoDir, pkgRel)
+		cmd.Env = append(os.Environ(), "GOFLAGS=-mod=mod", "GOPROXY=off", "GOSUMDB=off", "GOTOOLCHAIN=local")
+		out, _ := cmd.CombinedOutput()
+		var fails []string
+		ran := false
+		for _, l := range strings.Split(string(out), "\n") {
+			if strings.HasPrefix(l, "GOVC FAIL") {
+				fails = append(fails, l)
+			}
+			if strings.HasPrefix(l, "GOVC run") {
+				ran = true
+			}
+		}
+		if strings.Contains(string(out), "panic:") && ran {
+			fails = append(fails, "GOVC FAIL panic: "+truncate(string(out), 400))
+		}
+		if !ran {
+			info["replay"] = "native run of the harness did not start: " + truncate(string(out), 600)
+			return "", false
+		}
+		if len(fails) == 0 {
+			info["replay"] = fmt.Sprintf("native run of the harness passed on %d candidate inputs", ci+1)
+			continue
+		}
+		base := filepath.Join(dir, sanitize(o.Name))
+		os.WriteFile(base+"_test.go.txt", []byte(mainSrc), 0644)
+		info["replay"] = "REPRODUCED: the harness, compiled and run natively against the real code on the input below, fails its own check"
+		info["replay_input"] = cand
+		if cand == nil {
+			info["replay_input"] = fmt.Sprintf("generic point, seed %d (see govcSym in the replay test)", ci)
+		}
+		info["replay_output"] = fails
 		info["replay_test"] = base + "_test.go.txt"
 		b, _ := json.MarshalIndent(info, "", " ")
 		os.WriteFile(base+".json", b, 0644)
